@@ -429,6 +429,66 @@ pub fn run(tier: Tier) -> Run {
     for (o, c) in &sw.outcomes {
         run.outcome(&format!("raw:{}", o), *c);
     }
+    // ---- every ordered pair of opcodes (minimal shapes) as neighbours inside a block and at module level, against the
+    //      same grammar-free oracle: nothing may be dropped, duplicated or invented because of what stands next to it
+    {
+        let g = golden();
+        let mins: Vec<(String, Vec<u32>, Vec<u32>)> = g
+            .insts
+            .iter()
+            .map(|gi| {
+                let mut a = universe::minimal(gi);
+                let mut b = a.clone();
+                if a.rid.is_some() {
+                    a.rid = Some(900);
+                    b.rid = Some(901);
+                }
+                (gi.name.clone(), enc(&a), enc(&b))
+            })
+            .collect();
+        let hdr = model::header(0x0001_0500, 0, 2000);
+        let pre: Vec<u32> = [rep_inst("Function", 1), rep_inst("Label", 2)].iter().flat_map(enc).collect();
+        let post: Vec<u32> = [rep_inst("Return", 3), rep_inst("FunctionEnd", 4)].iter().flat_map(enc).collect();
+        let res: Vec<(u64, u64, Vec<Viol>)> = mins
+            .par_iter()
+            .map(|(xn, xw, _)| {
+                let mut v: Vec<Viol> = vec![];
+                let (mut n, mut acc) = (0u64, 0u64);
+                for (yn, _, yw) in &mins {
+                    for in_block in [true, false] {
+                        let mut w = hdr.clone();
+                        if in_block {
+                            w.extend(&pre);
+                        }
+                        w.extend(xw);
+                        w.extend(yw);
+                        if in_block {
+                            w.extend(&post);
+                        }
+                        n += 1;
+                        let (viol, _label, a) = raw_check(&format!("{}:then", xn), &format!("pair:{}:{}", yn, if in_block { "block" } else { "module" }), &model::words_to_bytes(&w));
+                        if a {
+                            acc += 1;
+                        }
+                        if let Some(x) = viol {
+                            if v.len() < 3 {
+                                v.push(x);
+                            }
+                        }
+                    }
+                }
+                (n, acc, v)
+            })
+            .collect();
+        let (mut n, mut acc) = (0u64, 0u64);
+        for (k, a, v) in res {
+            n += k;
+            acc += a;
+            run.add_all(v);
+        }
+        run.outcome("raw:adjacent_opcode_pairs", n);
+        run.outcome("raw:adjacent_opcode_pairs_loaded", acc);
+    }
     let mut cs = cases(tier);
     cs.extend(multi_function_cases());
     let res: Vec<(Vec<Viol>, &'static str)> = cs.par_iter().map(check_case).collect();
